@@ -133,8 +133,8 @@ class Stmt:
         if attr == "where":
             def where(sx2, a, k, s, n):
                 p = a[0]
-                if not (isinstance(p, Conc) and isinstance(p.v, Pred)):
-                    raise Unsupported("where() with a non-column expression", n)
+                if self.kind == "unknown" or not (isinstance(p, Conc) and isinstance(p.v, Pred)):
+                    return [R(s, Conc(Stmt("unknown")))]
                 newp = p.v if self.pred is None else Pred(lambda r, f=self.pred.fn, g=p.v.fn: z3.And(f(r), g(r)), "..")
                 return [R(s, Conc(Stmt(self.kind, newp, self.cols, self.values)))]
             return [R(st, Func(where, "stmt.where"))]
@@ -158,7 +158,9 @@ class SA:
                     elif isinstance(c, Conc) and isinstance(c.v, Table):
                         cols = ["id", "created_at", "kind", "pubkey", "tags", "sig", "content"]
                     else:
-                        raise Unsupported("select() of %r" % (c,), n)
+                        # a select list the model cannot interpret (a function, a sub-select, a value without contract): the
+                        # statement is unknown -- executing it may do anything to the tables and returns anything
+                        return [R(s, Conc(Stmt("unknown")))]
                 return [R(s, Conc(Stmt("select", None, cols)))]
             return [R(st, Func(select, "sa.select"))]
         if attr == "delete":
@@ -280,7 +282,15 @@ class Connection:
                 st.ghost["n_tag_inserts"] = Val(V.Int, st.ghost["n_tag_inserts"].term + 1)
                 outs.append(R(st, Conc(ResultRows(Stmt("select", None, [])))))
                 return outs
-        raise Unsupported("conn.execute of %r" % (stmt,), node)
+        # a statement the model cannot interpret: any effect on the tables, any result (or an engine error, added above)
+        from pyvc.sx import Unknown
+        sx.uncontracted.append("conn.execute of an uninterpreted statement (line %s)" % getattr(node, "lineno", "?"))
+        st.ghost["rows"] = sx.fresh(ROWS, "rows_after_unknown_statement", st)
+        for g in ("n_deletes", "n_inserts", "n_tag_inserts", "last_rowcount"):
+            st.ghost[g] = sx.fresh(V.Int, "g_" + g, st)
+        st.ghost["inserted"] = sx.fresh(V.Bool, "g_inserted", st)
+        outs.append(R(st, Conc(Unknown("result of an uninterpreted statement"))))
+        return outs
 
 
 class BeginCM:
